@@ -777,7 +777,7 @@ def boundary(model, rng, kind=None):
     """Plant one value at / just beyond a representable limit.  model["boundary"] records what and where, so that the
     oracle can tell 'rejected', 'read back unchanged' and 'shape preserved' from 'clamped or wrapped'."""
     kinds = ["advance", "neg-advance", "coord", "coord-diff", "comp-offset", "comp-scale", "kern", "anchor", "metric", "var-delta",
-             "upem", "weightclass", "widthclass", "height", "lsb"]
+             "upem", "weightclass", "widthclass", "height", "lsb", "cubic-arch"]
     glyphs = [g for g in model["glyphs"] if g["export"] and g["name"] != ".notdef"]
     simple = [g for g in glyphs if all(not l["components"] for l in g["layers"].values()) and any(l["contours"] for l in g["layers"].values())]
     comps = [g for g in glyphs if any(l["components"] for l in g["layers"].values())]
@@ -869,6 +869,17 @@ def boundary(model, rng, kind=None):
                 l["contours"][0][0][0] = lo if first else hi
             first = False
         b.update(glyph=g["name"], value=hi - lo, beyond=hi - lo > 32767)
+    elif kind == "cubic-arch" and simple:
+        # every source point fits 16 bits, but the quadratic approximation of a wide bulging cubic needs an off-curve point
+        # about 1.5x further out than the handles
+        g = rng.choice(simple)
+        a = rng.choice([12000, 15000, 21000, 22000, 25000, 30000])
+        flip = rng.choice([1, -1])
+        for l in all_layers(g):
+            w = 8000  # (the base of the arch stays well inside the point-to-point limit)
+            l["contours"] = [[[-w, 0, "line"], [-w / 3, flip * a, "off"], [w / 3, flip * a, "off"], [w, 0, "curve"]]]
+            l["components"] = []
+        b.update(glyph=g["name"], value=a, beyond=a * 1.5 > 32767, accept="must" if a * 1.5 <= 32767 else "either")
     elif kind == "upem":
         v = rng.choice([15, 16, 16384, 16385, 65535, 65536, 100000])
         model["upem"] = v
